@@ -4,7 +4,7 @@ M: Chan.tla (FIFO queue with capacity, rendezvous, close) checked exhaustively b
    AtMostOnce, PerSenderFIFO, NilOnlyAfterDrain, Quiescent (exactly once at the end), liveness, and the
    refinement Chan => ChanAbs.
 V: producer/consumer topologies (1..4 x 1..4, capacities 0..8, up to 10^4 messages, three spawn forms, two
-   receive forms) run as scripts under GOMAXPROCS 1 / 2 / 16 with injected yields; events stamped by one atomic
+   receive forms: explicit loop, iteration, iteration left early and resumed) run as scripts under GOMAXPROCS 1 / 2 / 16 with injected yields; events stamped by one atomic
    counter are validated by TLC against ChanAbs (TraceChan.tla).  Thread semantics: wait() returns exactly the
    spawned call's result or error, arguments are the values given at the spawn site.
 """
@@ -36,12 +36,12 @@ def run(cx):
     for (ns, nr) in sizes:
         for cap in caps:
             for form in ("spawn", "method", "go"):
-                recv = rnd.choice(["loop", "iter"])
+                recv = rnd.choice(["loop", "iter", "iterbreak", "iterbreak"])
                 msgs = rnd.choice([3, 10, 40]) if cx.quick() else rnd.choice([3, 10, 100, 400])
                 topos.append({"ns": ns, "nr": nr, "msgs": msgs, "cap": cap, "spawn": form, "recv": recv})
     # a few long ones
     for msgs in ([1000] if cx.quick() else [2500, 10000]):
-        topos.append({"ns": 4, "nr": 4, "msgs": msgs // 4, "cap": 2, "spawn": "spawn", "recv": "iter"})
+        topos.append({"ns": 4, "nr": 4, "msgs": msgs // 4, "cap": 2, "spawn": "spawn", "recv": "iterbreak"})
         topos.append({"ns": 1, "nr": 1, "msgs": msgs, "cap": 0, "spawn": "method", "recv": "loop"})
     traces = []
     by_id = {}
@@ -76,7 +76,8 @@ def run(cx):
             traces.append({"id": r_["id"], "ns": r_["ns"], "nr": r_["nr"], "msgs": r_["msgs"], "events": res["events"]})
             nmsg += r_["ns"] * r_["msgs"]
             marks = {(m["ev"], m["t"]): m["v"] for m in res.get("marks") or []}
-            exp = {("spawn", 1): "5", ("spawn", 2): "6", ("wait", 1): "51", ("wait", 2): "62", ("waiterr", 3): '"boom"'}
+            exp = {("spawn", 1): "5", ("spawn", 2): "6", ("wait", 1): "51", ("wait", 2): "62", ("waiterr", 3): '"boom"',
+                   ("go", 4): "[13, 23, 33, 43]", ("go", 5): "8", ("go", 6): "9", ("go", 7): "407"}
             if marks != exp:
                 bad_marks.append((r_["id"], marks))
     langlib.tlc_conform(cx, traces, spec="TraceChan", prefix="trace", strip=(), nshards=8)
@@ -103,7 +104,7 @@ def run(cx):
         "evaluations": nmsg, "distinct_nontrivial": len([t for t in traces if t["ns"] + t["nr"] > 2]),
         "traces_validated_against_impl": len(traces), "topologies": len(topos), "gomaxprocs": [1, 2, 16],
         "rule": "10 sender x receiver shapes (1..4 x 1..4) x capacities x 3 spawn forms (spawn(), fn.spawn(), go statement) x receive form "
-                "(explicit <-c loop / iteration) x message counts, each under GOMAXPROCS 1, 2, 16 with seeded yields in the host builtins; "
+                "(explicit <-c loop / iteration / iteration left early, direct receive, new iteration) x message counts, each under GOMAXPROCS 1, 2, 16 with seeded yields in the host builtins; "
                 "evaluations = messages sent; non-trivial = trace with more than one sender or receiver",
     })
     cx.assumptions += ["send is stamped before the channel operation, receive after it, with one atomic counter (DESIGN.md 5/C10)",
